@@ -1302,11 +1302,87 @@ Proof.
   - (* suspended *)
     assert (Htme : t <> s_cur s) by (intros ->; congruence).
     rewrite Hco in Hstt by auto. rewrite (Hco t) by auto.
-    rewrite (Hback_t t Htme) by (rewrite Hstt; auto). cbv iota. cbv beta zeta.
-    admit.
+    rewrite (Hback_t t Htme) by (rewrite Hstt; auto). cbv iota. cbv beta zeta. simpl.
+    fold fme'. rewrite !(upd_other (s_cur s) t) by auto. rewrite (Hfi t) by auto.
+    pose proof (R4 t) as H4t. unfold fiber_rel in H4t. rewrite Hstt in H4t.
+    destruct H4t as (Hart & Hcalt & Hfresht & Hhandt & extra & hfrt & Hstkt & Hfrt & Hokt).
+    assert (Hnn : is_new (set_caller (Some (s_cur s)) (fibers (m_vm m) t)) = false).
+    { unfold is_new. simpl. rewrite Hfrt. destruct Hokt as [[_ ->]|(h & b & ->)]; reflexivity. }
+    rewrite Hnn.
+    set (ft3 := f_poke0 (arg_or_nil arg) (set_caller (Some (s_cur s)) (fibers (m_vm m) t))).
+    assert (Hft3 : match arg with
+                   | Some a => f_poke0 a (set_caller (Some (s_cur s)) (fibers (m_vm m) t))
+                   | None => f_poke0 VNil (set_caller (Some (s_cur s)) (fibers (m_vm m) t))
+                   end = ft3) by (unfold ft3; destruct arg; reflexivity).
+    rewrite Hft3.
+    set (vm3 := mkVm (Some t) (upd t ft3 (upd (s_cur s) fme' fibs2)) hdl).
+    destruct (settle_store vm3 t (s_co s t) extra hfrt VFiberClass dst0 (c_code (s_co s t)) (arg_or_nil arg)
+                (set_caller (Some (s_cur s)) (fibers (m_vm m) t)))
+      as (vm' & Hset & Hcur' & Hhdl' & Hoth' & Hstk' & Hfr' & Hcal' & Har' & Hhs'); auto.
+    { unfold vm3. simpl. now rewrite upd_same. }
+    unfold of_nres, after_switch. change (current vm3) with (Some t). rewrite Hset. unfold of_sres, set_cur, set_co. simpl.
+    rewrite (Hco t) by auto.
+    apply Hfin; auto.
+    + rewrite Hstt. auto.
+    + rewrite Hstt. discriminate.
+    + intros k Hk1 Hk2. rewrite Hoth' by auto. unfold vm3. simpl. rewrite !upd_other by auto. apply Hfi; auto.
+    + rewrite Hoth' by auto. unfold vm3. simpl. rewrite upd_other by auto. now rewrite upd_same.
+    + unfold fiber_rel. simpl. rewrite Har', Hcal', Hstk', Hfr', Hhs'. simpl.
+      split; [exact Hart|]. split; [reflexivity|]. split; [apply base_ext; reflexivity|].
+      split; [rewrite Hfresht; reflexivity|]. exact Hhandt.
   - (* finished *)
     simpl. apply Herr.
-Admitted.
+Qed.
+
+Lemma poke_poke : forall a b f, f_poke0 a (f_poke0 b f) = f_poke0 a f.
+Proof. intros a b f. unfold f_poke0. simpl. rewrite removelast_snoc. reflexivity. Qed.
+
+(* `return v` of a body (or its end) *)
+Lemma return_sim : forall s m co2 fibs1 hdl st1 f v ip0 b0,
+  R s m ->
+  (forall k, k <> s_cur s -> co2 k = s_co s k) ->
+  c_status (co2 (s_cur s)) = SRunning -> c_back (co2 (s_cur s)) = c_back (s_co s (s_cur s)) ->
+  c_hasparam (co2 (s_cur s)) = c_hasparam (s_co s (s_cur s)) ->
+  c_param (co2 (s_cur s)) = c_param (s_co s (s_cur s)) ->
+  c_locals (co2 (s_cur s)) = c_locals (s_co s (s_cur s)) ->
+  c_handlers (co2 (s_cur s)) = c_handlers (s_co s (s_cur s)) ->
+  m_vm st1 = mkVm (Some (s_cur s)) fibs1 hdl ->
+  (forall k, k <> s_cur s -> fibs1 k = fibers (m_vm m) k) ->
+  stack f = base (s_cur s) (s_co s (s_cur s)) ++ [v] ->
+  frames f = [bframe (s_cur s) ip0 b0] ->
+  handlers f = hrel (s_co s (s_cur s)) ->
+  caller f = c_back (s_co s (s_cur s)) ->
+  call_arity f = ar (s_co s (s_cur s)) ->
+  m_caps st1 = m_caps m -> m_out st1 = m_out m ->
+  sim_result (s_return (mkS (s_cur s) co2 (s_caps s) (s_out s)) v) (m_return st1 (s_cur s) f).
+Proof.
+  intros s m co2 fibs1 hdl st1 f v ip0 b0 HR Hco Hst Hbk Hhp Hpa Hlo Hha Hvm Hfi Hstk Hfr Hhs Hcal Har Hcaps Hout.
+  pose proof HR as (R1 & R2 & R3 & R4 & R5). pose proof R3 as (I1 & I2 & I3 & I4 & I5).
+  unfold s_return, m_return. simpl. rewrite Hha, Hhs. unfold hrel.
+  destruct (c_handlers (s_co s (s_cur s))) as [|h hs] eqn:Hh; simpl; [|reflexivity].
+  rewrite Hvm. unfold return_impl. simpl. rewrite upd_same, Hfr. simpl. rewrite Hcal, Hbk.
+  destruct (c_back (s_co s (s_cur s))) as [b|] eqn:Hb; simpl; [|reflexivity].
+  destruct (I2 _ _ Hb) as [d Hd].
+  assert (Hbme : b <> s_cur s) by (intros ->; congruence).
+  unfold unload_fiber. simpl. rewrite upd_same. simpl. rewrite Hcal. simpl.
+  unfold s_finish.
+  eapply handback_switch with (d := d); eauto.
+  - congruence.
+  - simpl; auto.
+  - simpl. rewrite !upd_same. rewrite !(upd_other (s_cur s) b) by auto. rewrite (Hfi b) by auto.
+    rewrite poke_poke. unfold f_peek. rewrite Hstk, peek_snoc. reflexivity.
+  - intros k Hk1 Hk2. simpl. rewrite !upd_other by auto. apply Hfi; auto.
+  - simpl. rewrite !(upd_other b (s_cur s)) by auto. rewrite upd_same.
+    unfold fiber_rel. simpl. split; [|split; [reflexivity|split; reflexivity]].
+    rewrite Har. unfold ar. now rewrite Hhp.
+  - intros k Hk. simpl. rewrite Hcaps. destruct (m_caps m (s_cur s)) as [[slot|cv]|]; try reflexivity.
+    now rewrite upd_other by auto.
+  - simpl. rewrite Hcaps. pose proof (R5 (s_cur s)) as H5. unfold cap_rel in *.
+    destruct (s_caps s (s_cur s)) as [x|], (m_caps m (s_cur s)) as [[slot|cv]|]; simpl; try rewrite upd_same; auto.
+    + destruct H5 as (-> & _ & _). split; [reflexivity|].
+      rewrite Hstk, nth_local. now rewrite Hlo.
+    + destruct H5 as [H5a _]. congruence.
+Qed.
 
 Lemma step_sim : forall p s m, R s m -> sim_result (step_S p s) (step_M true p m).
 Proof.
